@@ -541,8 +541,8 @@ def _worker(args):
 # ----------------------------------------------------------------------------------------------
 
 class Client:
-    def __init__(self, exe):
-        self.p = subprocess.Popen([str(exe)], stdin=subprocess.PIPE, stdout=subprocess.PIPE, stderr=subprocess.PIPE, env=ENV)
+    def __init__(self, exe, env=None):
+        self.p = subprocess.Popen([str(exe)], stdin=subprocess.PIPE, stdout=subprocess.PIPE, stderr=subprocess.PIPE, env=env or ENV)
         self.buf = b""
         self.msgs = []
 
@@ -624,8 +624,8 @@ def stdio_value(op, resp):
     return v
 
 
-def run_stdio(exe, ops, rng):
-    c = Client(exe)
+def run_stdio(exe, ops, rng, env=None):
+    c = Client(exe, env)
     out = {"answers": {}, "diag_notes": [], "problems": []}
     c.send({"jsonrpc": "2.0", "id": 0, "method": "initialize", "params": {"capabilities": {}, "processId": None, "rootUri": None}})
     if c.wait_for(lambda m: m.get("id") == 0, 20) is None:
@@ -692,6 +692,7 @@ def run_stdio(exe, ops, rng):
             out["diag_notes"].append(m["params"])
     out["rc"] = rc
     out["stderr"] = err[-1500:]
+    out["stderr_full"] = err[:200000]
     out["max_threads"] = max_threads
     if rc != 0:
         out["problems"].append(("server-exit-status", f"lelwel-ls exited with {rc}"))
@@ -702,7 +703,8 @@ def run_stdio(exe, ops, rng):
 
 
 def _stdio_worker(args):
-    shard, nshards, tier, sd, exe = args
+    shard, nshards, tier, sd, exe = args[:5]
+    tsan = len(args) > 5 and args[5]
     from collections import Counter
     sz = SIZES[tier]
     rng = random.Random(sd * 7177 + shard)
@@ -717,10 +719,25 @@ def _stdio_worker(args):
         if sum(1 for v in viol if v["sig"] == sig) < 2:
             viol.append({"sig": sig, "what": what, "witness": witness})
 
-    for s in range(sz["stdio"] // nshards):
-        sid = 5000000 + shard * 1000 + s
+    nsess = sz["stdio"] // nshards if not tsan else 4
+    env = None
+    if tsan:
+        env = dict(ENV)
+        env["TSAN_OPTIONS"] = "halt_on_error=0:exitcode=66:second_deadlock_stack=1"
+    for s in range(nsess):
+        sid = (5000000 if not tsan else 7000000) + shard * 1000 + s
         ops = make_session(rng, pool, sz["ops"] * (3 if s % 3 == 0 else 1), sid)
-        res = run_stdio(exe, ops, rng)
+        res = run_stdio(exe, ops, rng, env)
+        if tsan:
+            counts["tsan_sessions"] += 1
+            nrep = res.get("stderr_full", "").count("WARNING: ThreadSanitizer")
+            counts["tsan_reports"] += nrep
+            if nrep or res.get("rc") == 66:
+                err = res.get("stderr_full", "")
+                i = err.find("WARNING: ThreadSanitizer")
+                first = err[i:i + 1200]
+                kind = first.split("\n")[0][:60]
+                V("tsan:" + kind, "ThreadSanitizer report in lelwel-ls: " + first[:300], {"report": first, "ops": [o["op"] for o in ops]})
         evals += 1
         counts["stdio_sessions"] += 1
         counts["stdio_ops"] += len(ops)
@@ -772,6 +789,18 @@ def main(tier):
     t1 = time.time()
     parts += pmap(_stdio_worker, [(s, 16, tier, sd, str(bins["lelwel-ls"])) for s in range(16)], 16)
     chk.note("stdio_wall_s", round(time.time() - t1, 1))
+    if tier == "thorough":
+        # ThreadSanitizer pass over the only threads of the code base (secondary net; safe Rust over mpsc: expected silent)
+        from ..tools import build_ls_tsan
+        try:
+            tsan_exe = build_ls_tsan()
+        except Inconclusive as e:
+            chk.note("tsan", "not run: " + str(e).splitlines()[0][:200])
+            tsan_exe = None
+        if tsan_exe is not None:
+            t2 = time.time()
+            parts += pmap(_stdio_worker, [(s, 16, tier, sd, str(tsan_exe), True) for s in range(16)], 16)
+            chk.note("tsan_wall_s", round(time.time() - t2, 1))
     for p in parts:
         chk.evaluations += p["evals"]
         chk.nontrivial.update(p["keys"])
